@@ -4,7 +4,7 @@ import subprocess
 import sys
 import json
 
-from core import nats, opt, exc_kind, REPO
+from core import nats, opt, exc_kind, REPO, safe_check
 import taxutil as T
 
 PROPS = ('GambitV.Props.C09', 'GambitV.C09')
@@ -71,7 +71,7 @@ def run(ctx):
 	rng = ctx.rng
 
 	def sub(case, tag):
-		lines, pf = check(ctx, case)
+		lines, pf = safe_check(check, ctx, case)
 		nt = case.pop('_nt', False)
 		ctx.submit(case, lines, nontrivial=nt, tags=[tag], pyfails=pf)
 
